@@ -4,4 +4,8 @@ C10Cfgs == { [nsrv |-> 2, tries |-> 2, timeout |-> 1000, seed |-> 1, udpmax |-> 
              [nsrv |-> 1, tries |-> 2, timeout |-> 1000, seed |-> 2, usevc |-> 1],
              [nsrv |-> 1, tries |-> 2, timeout |-> 1000, seed |-> 3, stayopen |-> 1, udpmax |-> 1],
              [nsrv |-> 2, tries |-> 1, timeout |-> 1000, seed |-> 4, usevc |-> 1, tfo |-> 1, stayopen |-> 1] }
+(* sockets that have to be configured before use: source address (bind), device (socket option), local address query *)
+C10CfgFaultCfgs == { [nsrv |-> 2, tries |-> 2, timeout |-> 1000, seed |-> 5, localip |-> 1],
+                     [nsrv |-> 1, tries |-> 2, timeout |-> 1000, seed |-> 6, localip |-> 1, usevc |-> 1],
+                     [nsrv |-> 2, tries |-> 1, timeout |-> 1000, seed |-> 7, localip |-> 1, localdev |-> 1, v6 |-> 1, edns |-> 1] }
 =============================================================================
